@@ -266,11 +266,19 @@ def run_case(ctx, i, rng):
         s0 = snapshot.snap(U, tables=False)
         q0 = name_answers(n)
         outs = []
+        # every accepted spelling of the output file's extension selects the same writer
+        oext = rng.choice({".edf": [".edf", ".edf", ".edif", ".EDF"], ".v": [".v", ".v", ".vh", ".vm", ".V"],
+                           ".eblif": [".eblif", ".eblif", ".blif", ".EBLIF"]}[ext])
+        ctx.count("output_name:" + oext)
         for rnd in range(3):
-            f = os.path.join(d, "out%d%s" % (rnd, ext))
+            f = os.path.join(d, "out%d%s" % (rnd, oext))
             with OpenTracker() as tr:
                 try:
-                    sdn.compose(n, f, **opts)
+                    if rng.random() < 0.3:
+                        n.compose(f, **opts)            # the method is a shortcut to the function
+                        ctx.count("composed_through_the_netlist_method")
+                    else:
+                        sdn.compose(n, f, **opts)
                 except Exception as ex:  # noqa: BLE001
                     if rnd == 0:
                         ctx.count("not_composable:%s:%s" % (ext, type(ex).__name__))
@@ -358,7 +366,7 @@ def run_case(ctx, i, rng):
             return
         if not opts.get("definition_list") and opts.get("write_blackbox", True):
             try:
-                sdn.parse(os.path.join(d, "out0" + ext))
+                sdn.parse(os.path.join(d, "out0" + oext))
             except Exception as ex:  # noqa: BLE001
                 ctx.count("reparse_failed:%s:%s" % (ext, type(ex).__name__))
         nd = sum(len(l.definitions) for l in n.libraries)
